@@ -121,6 +121,7 @@ def run(chk):
                          {"tree": tree, "default_attr": da, "bare": e["default"], "lang": lang, "pos": pos, "config": cname}, f"optional={req}", f"optional={e['optional']} ty={e['ty']}")
     chk.extra["trace_events"] = len(idx)
     compose.run(chk, "optional")
+    compose.run_members(chk, "optional")
 
 
 def replay(chk, rec):
